@@ -120,3 +120,18 @@ Proof.
   { intros _. split; [vm_compute; split; congruence|]. vm_compute. repeat split; congruence. }
   split; [exact D|]. split; [exact T|]. vm_compute. reflexivity.
 Qed.
+
+(* den_defined_of_valid, PARTIAL.  Wanted: for a message satisfying the Spec validity predicate
+   (Spec/SpecValid.strict_valid_message = VOk) every pointer reachable from the root has a
+   denotation.  Proved here: the same conclusion (a denotation, and its traversability measures)
+   from the success of the EXECUTABLE decoder [vdec] on the pointer -- a decidable sufficient
+   condition evaluated by the harness on every case.  Missing: the lemma
+   strict_valid_message f m = VOk -> vdec .. m .. (root) <> None (Spec/StrictWalk.strict_valid_walk
+   gives walk = spec_decode on such messages, but no lemma links a complete walked tree to vdec/den). *)
+Theorem den_defined_of_valid_partial : forall fuel lcap m mid caps p v,
+  msg_ok m -> vdec fuel lcap m mid caps p = Some v ->
+  den true m mid caps p v /\ exists c, trav true m p (Z.of_nat (vdepth v)) c.
+Proof.
+  intros fuel lcap m mid caps p v Hm E. pose proof (vdec_den _ _ _ _ _ _ _ E) as D.
+  split; [exact D|]. exact (den_trav true m mid caps Hm (vdepth v) v (le_n _) p D).
+Qed.
